@@ -47,7 +47,10 @@ class Prop:
             "within 1..3 preemptions (three of them aim at the silent switch point the harness offers immediately before "
             "handleRead()'s read of the eventfd: a foreign queueInLoop()+wakeup() inside that window, a further foreign "
             "submission once the loop is back in poll; the same three are enumerated first whenever an obligation or a tie "
-            "breaks or a run diverges from the model). A case counts as non-trivial when at least two threads acted or a submission context "
+            "breaks or a run diverges from the model); long batches (`qburst`): 1500 functors queued before loop() and by a foreign "
+            "thread while the loop is held in a drain, the first of them queueing a late one — thorough tier and search mode also "
+            "5000, the sizes 1023/1024/1025/2047/2049/4096/4097, a burst queued from inside a drain, a late foreign submission, "
+            "burst + quit (final drain), two interleaved foreign bursts. A case counts as non-trivial when at least two threads acted or a submission context "
             "other than the plain foreign one occurred; distinct = distinct implementation logs.")
     trusted_base = [
         "Lean 4.33.0 kernel; axioms allowed: propext, Classical.choice, Quot.sound",
